@@ -243,11 +243,11 @@ Definition step (legacy : bool) (w : world) (fuel : nat) (st : state) (o : op) :
       end
   end.
 
-Fixpoint run (legacy : bool) (w : world) (fuel : nat) (st : state) (ops : list op) : state * list obs :=
+Fixpoint run_history (legacy : bool) (w : world) (fuel : nat) (st : state) (ops : list op) : state * list obs :=
   match ops with
   | [] => (st, [])
   | o :: r =>
       let '(st1, b) := step legacy w fuel st o in
-      let '(st2, bs) := run legacy w fuel st1 r in
+      let '(st2, bs) := run_history legacy w fuel st1 r in
       (st2, b :: bs)
   end.
